@@ -15,7 +15,7 @@ Require Import Base M_Frames M_Greenback.
 Definition fcode (k : fk) : nat :=
   match k with
   | FShimCoro => 0 | FShim => 1 | FTramp => 2 | FSend => 3 | FTarget => 4 | FLeaf => 5
-  | FNested => 6 | FProbe => 7 | FWait => 8 | FWTR => 9 | FSwitch => 10 | FSendE => 11
+  | FNested => 6 | FProbe => 7 | FWait => 8 | FWTR => 9 | FSwitch => 10 | FSendE => 11 | FAdapt => 12 | FDunder => 13
   | FA k => 20 + 3 * k | FS k => 21 + 3 * k | FAwait k => 22 + 3 * k
   end.
 
@@ -58,22 +58,23 @@ Definition compose_ok (sc : scenario) : bool :=
 Definition errs (nmax : nat) : list (option nat) := None :: map Some (seq 0 (S nmax)).
 
 Definition scenarios (nmax jmax : nat) : list scenario :=
-  map (fun p : (bool * bool) * ((nat * nat) * option nat) =>
-         Build_scenario (fst (fst p)) (fst (fst (snd p))) (snd (fst (snd p))) (snd (snd p)) (snd (fst p)))
-      (list_prod (list_prod [true; false] [true; false])
+  map (fun p : ((bool * bool) * bool) * ((nat * nat) * option nat) =>
+         Build_scenario (fst (fst (fst p))) (fst (fst (snd p))) (snd (fst (snd p))) (snd (snd p))
+                        (snd (fst (fst p))) (snd (fst p)))
+      (list_prod (list_prod (list_prod [true; false] [true; false]) [true; false])
                  (list_prod (list_prod (seq 0 (S nmax)) (seq 0 (S jmax))) (errs nmax))).
 
 Lemma compose_sweep : forallb compose_ok (scenarios 6 3) = true.
 Proof. vm_compute. reflexivity. Qed.
 
-Lemma greenback_composes inside aio n j err :
+Lemma greenback_composes inside aio awt n j err :
   n <= 6 -> j <= 3 -> (forall m, err = Some m -> m <= 6) ->
-  compose_ok {| sc_inside := inside; sc_n := n; sc_j := j; sc_err := err; sc_aio := aio |} = true.
+  compose_ok {| sc_inside := inside; sc_n := n; sc_j := j; sc_err := err; sc_aio := aio; sc_awt := awt |} = true.
 Proof.
   intros Hn Hj He. pose proof compose_sweep as H. rewrite forallb_forall in H. apply H.
-  unfold scenarios. apply in_map_iff. exists ((inside, aio), ((n, j), err)). split; [reflexivity|].
+  unfold scenarios. apply in_map_iff. exists (((inside, aio), awt), ((n, j), err)). split; [reflexivity|].
   apply in_prod.
-  - apply in_prod; [destruct inside; simpl; auto|destruct aio; simpl; auto].
+  - apply in_prod; [apply in_prod|]; [destruct inside|destruct aio|destruct awt]; simpl; auto.
   - apply in_prod; [apply in_prod; apply in_seq; lia|].
     unfold errs. destruct err as [m|]; [right|left; reflexivity].
     apply in_map. apply in_seq. pose proof (He m eq_refl). lia.
